@@ -55,7 +55,11 @@ def run_case(case, res):
     pre = "k"
     sub = bool(case.get("kindsub"))  # kinds (stored and queried) are instances of a str subclass, like StrEnum members
     wrapk = (lambda v: _KindStr(v)) if sub else (lambda v: v)
-    mk = lambda ch: wrapk("" if ch == "c" else pre + ch)  # the empty string is a legal kind too
+    # `nfd`: two kinds that are the same text to a reader but different strings (decomposed / composed accent): kinds are
+    # compared as the strings they are
+    kname = (lambda ch: {"a": "e\u0301", "b": "\u00e9", "c": "", "q": "e", "o": "konly"}[ch]) if case.get("nfd") else \
+        (lambda ch: "konly" if ch == "o" else "" if ch == "c" else pre + ch)
+    mk = lambda ch: wrapk(kname(ch))  # the empty string is a legal kind too
     if case["lab"] == "uniq":
         nodes = gen.build(t, f, lambda i: f"n{i}", kind=lambda i: mk(kinds[i]))
     else:
@@ -94,7 +98,11 @@ def run_case(case, res):
             return ("EXC", type(e).__name__, str(e)[:80])
 
     def evaluate():
-            for x in nodes:
+            sample = nodes
+            if case.get("wide"):
+                # a very wide sibling list: a handful of nodes at both ends, around the middle and around the kind changes
+                sample = [nodes[k] for k in sorted({0, 1, 2, len(nodes) // 2, len(nodes) - 3, len(nodes) - 2, len(nodes) - 1})]
+            for x in sample:
                 sibs = list(x._parent.children) if x.parent is None else list(x.parent.children)
                 if x.parent is None:
                     sibs = list(t.children)
@@ -103,7 +111,7 @@ def run_case(case, res):
                 j = next(k for k, s in enumerate(same) if s is x)
                 K = list(x.children)
                 for kch in KINDS + "qo":
-                    kind = wrapk("konly" if kch == "o" else "" if kch == "c" else "".join(["k", kch]))
+                    kind = wrapk("".join(list(kname(kch))))
                     kk = [c for c in K if c.kind == kind]
                     chk(f"get_children({kind})", attempt(lambda: x.get_children(kind)), kk, x)
                     chk(f"first_child({kind})", attempt(lambda: x.first_child(kind)), kk[0] if kk else None, x)
@@ -158,7 +166,7 @@ def run_case(case, res):
 
             rec(top)
             for kch in KINDS + "qo":
-                kind = wrapk("konly" if kch == "o" else "" if kch == "c" else "".join(["k", kch]))
+                kind = wrapk("".join(list(kname(kch))))
                 kk = [c for c in top if c.kind == kind]
                 chk(f"tree.first_child({kind})", attempt(lambda: t.first_child(kind)), kk[0] if kk else None, None)
                 chk(f"tree.last_child({kind})", attempt(lambda: t.last_child(kind)), kk[-1] if kk else None, None)
@@ -215,7 +223,7 @@ def run_shard(spec, res):
                 else:
                     assigns = ["".join(rng.choice(KINDS) for _ in range(n)) for _ in range(12)] + ["a" * n, "ab" * n]
                 for ai, a in enumerate(assigns):
-                    run_case({"f": fc, "kinds": a[:n], "lab": "uniq"}, res)
+                    run_case({"f": fc, "kinds": a[:n], "lab": "uniq", **({"nfd": True} if ai % 4 == 1 else {})}, res)
                     if n >= 1 and ai % 3 == 0:
                         run_case({"f": fc, "kinds": a[:n], "lab": "uniq", "prelude": True, "pseed": ai}, res)
                     if n >= 2 and ai % 3 == 1:
@@ -230,11 +238,20 @@ def run_shard(spec, res):
                     return
     else:
         rng = rng_for(seed, "c15-rand", spec["i"])
+        if spec["i"] == 0:
+            # width is not depth: one parent with 1500 children - long runs of another kind between two nodes of one kind
+            W = 1500
+            wide = [[] for _ in range(W)]
+            kinds = ["b"] * W
+            for k in (0, 1, W // 2, W - 2, W - 1):
+                kinds[k] = "a"
+            kinds[2] = "c"
+            run_case({"f": gen.code(wide), "kinds": "".join(kinds), "lab": "uniq", "wide": True}, res)
         for j in range(spec["count"]):
             f = gen.random_forest(rng, rng.randint(7, 25))
             n = gen.size(f)
             run_case({"f": gen.code(f), "kinds": "".join(rng.choice(KINDS) for _ in range(n)), "lab": rng.choice(["uniq", "eqsib"]),
                       "prelude": rng.random() < 0.5, "pseed": rng.randrange(10**6), "resort": rng.random() < 0.5,
-                      "kindsub": rng.random() < 0.3, "ext": rng.random() < 0.3, "bycopy": rng.random() < 0.3}, res)
+                      "kindsub": rng.random() < 0.3, "ext": rng.random() < 0.3, "bycopy": rng.random() < 0.3, "nfd": rng.random() < 0.25}, res)
             if res.expired():
                 break
